@@ -18,7 +18,7 @@ ASSUMPTIONS = ["lentil's physical constants differ from CODATA by < 1e-6 relativ
 EXHAUSTIVE = True
 PLAN = {'quick': {'gen': 4}, 'thorough': {'gen': 8, 'tests': 1, 'docs': 1}}
 REQUIRED_BUCKETS = ['wave-triple', 'flux-triple', 'spectrum.to:density', 'spectrum.to:unitless', 'spectrum.to:flux-roundtrip', 'spectrum.to:multi', 'spectrum.sample:unit', 'blackbody:converted',
-                    'planck:radiance', 'planck:exitance', 'planck:forms', 'planck:argument-types', 'planck:rayleigh-jeans', 'spectrum.to:refused-tail', 'same-numbers:mixed-units', 'wien', 'stefan-boltzmann', 'vega']
+                    'planck:radiance', 'planck:exitance', 'planck:forms', 'planck:argument-types', 'planck:rayleigh-jeans', 'spectrum.to:refused-tail', 'same-numbers:mixed-units', 'wien', 'stefan-boltzmann', 'vega', 'spectrum.to:edit-in-place', 'spectrum.bin:unit']
 REQUIRED_ANCHORS = ['anchor:Spectrum.to', 'anchor:planck_radiance', 'anchor:planck_exitance', 'anchor:vegaflux',
                     'anchor:Photlam.to', 'anchor:Micron.to']
 REQUIRED_ORACLES = ['wave:compose', 'wave:identity', 'wave:roundtrip', 'wave=si', 'flux:compose', 'flux:identity',
@@ -247,6 +247,57 @@ def workload(ctx, lentil):
                       {'units': [ua, ub], 'op': opn, 'n': [len(r1.wave), len(r2.wave)]})
         except Exception as e:
             ctx.check(False, 'to:values', f'same-numbers|raises={type(e).__name__}', str(e), {'units': [ua, ub], 'op': opn})
+    # ---- convert, edit the arrays in place, convert straight back: the spectrum as it is NOW is what is converted ------------------
+    for i in range(max(10, n // 3)):
+        npts = int(rng.integers(3, 20))
+        u0, u1 = sm.WAVE_CANON[int(rng.integers(0, 4))], sm.WAVE_CANON[int(rng.integers(0, 4))]
+        wave = (np.cumsum(rng.uniform(2, 30, size=npts)) + rng.uniform(200, 900)) * sm.wave_factor('nm', u0)
+        value = rng.uniform(0.1, 5, size=npts)
+        vu = ['photlam', 'flam', 'wlam', None][i % 4]
+        flux_hop = vu is not None and i % 2 == 0
+        other = [x for x in sm.FLUX if x != vu][int(rng.integers(0, 2))] if vu is not None else None
+        desc = {'edit-between-conversions': [u0, u1], 'valueunit': vu, 'via': other if flux_hop else u1, 'n': npts}
+        ctx.case(desc, ['spectrum.to:edit-in-place'])
+        sp = R.Spectrum(wave.copy(), value.copy(), waveunit=u0, valueunit=vu)
+        try:
+            sp.to(other) if flux_hop else sp.to(u1)
+            k = int(rng.integers(0, npts))
+            sp.value[k:] *= 0.5                      # in-place edits of the caller's own spectrum
+            sp.value[0] = 0.0
+            if not flux_hop:
+                sp.wave[...] = sp.wave * 1.0
+            sp.to(vu) if flux_hop else sp.to(u0)
+            want = value.copy(); want[k:] *= 0.5; want[0] = 0.0
+            ctx.close('to:flux-roundtrip', np.asarray(sp.value, float), want, 1e-11, 'to|edit-in-place|values',
+                      'an in-place edit made between a conversion and the conversion back is lost (or altered)', desc,
+                      scale=float(np.max(value)))
+            ctx.close('to:values', np.asarray(sp.wave, float), wave, 1e-12, 'to|edit-in-place|wave',
+                      'the wavelengths are not restored by converting there and back around an in-place edit', desc, scale=float(np.max(wave)))
+        except Exception as e:
+            ctx.check(False, 'to:flux-roundtrip', f'to|edit-in-place|raises={type(e).__name__}', str(e), desc)
+    # ---- binning in another wavelength unit == converting to that unit, then binning there (all value units, both power options) ----
+    for i in range(max(10, n // 3)):
+        npts = int(rng.integers(12, 40))
+        u0, u1 = sm.WAVE_CANON[int(rng.integers(0, 4))], sm.WAVE_CANON[int(rng.integers(0, 4))]
+        wave_nm = np.linspace(float(rng.uniform(300, 500)), float(rng.uniform(900, 1500)), npts)
+        value = rng.uniform(0.1, 5, size=npts)
+        vu = [None, 'photlam', None, 'wlam', 'flam'][i % 5]
+        pp = bool(i % 2 == 0)
+        cen_nm = np.linspace(wave_nm[2], wave_nm[-3], int(rng.integers(3, 8)))
+        desc = {'bin-in-unit': [u0, u1], 'valueunit': vu, 'preserve_power': pp, 'n': npts}
+        ctx.case(desc, ['spectrum.bin:unit'])
+        try:
+            a = R.Spectrum(wave_nm * sm.wave_factor('nm', u0), value.copy(), waveunit=u0, valueunit=vu)
+            b = R.Spectrum(wave_nm * sm.wave_factor('nm', u0), value.copy(), waveunit=u0, valueunit=vu)
+            b.to(u1)
+            cen = cen_nm * sm.wave_factor('nm', u1)
+            ba = np.asarray(a.bin(cen, interp_method='trapz', preserve_power=pp, waveunit=u1), float)
+            bb = np.asarray(b.bin(cen, interp_method='trapz', preserve_power=pp, waveunit=u1), float)
+            ctx.close('to:integral', ba, bb, 1e-9, 'bin|other-unit' + ('|density' if vu else '|unitless') + ('|power' if pp else ''),
+                      'binning a spectrum in another wavelength unit differs from converting it to that unit and binning there', desc,
+                      scale=float(np.max(np.abs(bb))) + 1e-300)
+        except Exception as e:
+            ctx.check(False, 'to:integral', f'bin-unit|raises={type(e).__name__}', str(e), desc)
     # ---- sampling / resampling a per-wavelength density in another wavelength unit == converting, then sampling -------------
     for i in range(n):
         npts = int(rng.integers(3, 20))
